@@ -349,13 +349,20 @@ def rule_fold(ctx: Ctx) -> None:
     a0 = lps[0]
     av = U(a0.node.target)
     ctx.check(S(a0.text) == "non_detection_areas", "C12-fold", "SensingEvaluationManager.crop_pointcloud", "areas", f"the first loop iterates {S(a0.text)}", fi=fm)
+    L1 = None
     for bp in a0.body:
         ap = appends(bp)
-        ok = len(ap) == 1 and ap[0].recv == "cropped_pointcloud" and S(ap[0].args[0]) in (f"crop_pointcloud(pointcloud=pointcloud,area={av})", f"crop_pointcloud(pointcloud,{av})", f"crop_pointcloud(pointcloud=pointcloud,area={av},inside=True)")
+        L1 = ap[0].recv if len(ap) == 1 else L1  # the list of area-cropped clouds, whatever it is called
+        ok = len(ap) == 1 and S(ap[0].args[0]) in (f"crop_pointcloud(pointcloud=pointcloud,area={av})", f"crop_pointcloud(pointcloud,{av})", f"crop_pointcloud(pointcloud=pointcloud,area={av},inside=True)")
         ctx.check(ok, "C12-fold", "SensingEvaluationManager.crop_pointcloud", "area-crop", f"per area the function appends {[S(x.args[0])[:80] for x in ap]}; expected the inside crop of the full cloud by that area", fi=fm)
     o = lps[1]
-    ctx.check(S(o.text) == "enumerate(cropped_pointcloud)", "C12-fold", "SensingEvaluationManager.crop_pointcloud", "object-loop", f"the second loop iterates {S(o.text)}", fi=fm)
-    ivar, pv = [U(x) for x in o.node.target.elts]
+    ctx.require(L1 is not None, "SensingEvaluationManager.crop_pointcloud: the list of area-cropped clouds was not recognised")
+    in_place = S(o.text) == f"enumerate({L1})" and isinstance(o.node.target, ast.Tuple) and len(o.node.target.elts) == 2
+    ctx.check(in_place or (S(o.text) == L1 and isinstance(o.node.target, ast.Name)), "C12-fold", "SensingEvaluationManager.crop_pointcloud", "object-loop", f"the second loop iterates {S(o.text)}; expected every area-cropped cloud ({L1}), in order", fi=fm)
+    if not (in_place or (S(o.text) == L1 and isinstance(o.node.target, ast.Name))):
+        return
+    ivar, pv = [U(x) for x in o.node.target.elts] if in_place else (None, U(o.node.target))
+    L2 = L1
     run = None
     for bp in o.body:
         inner = [e for e in bp.effects if e.kind == "loop"]
@@ -372,9 +379,17 @@ def rule_fold(ctx: Ctx) -> None:
                       expected=want, found=got[:300])
         init = (inner[0].pre or {}).get(run) if run else None
         ctx.check(init is not None and S(init) in (f"{pv}.copy()", pv), "C12-fold", "SensingEvaluationManager.crop_pointcloud", "start", f"the fold starts from `{S(init) if init is not None else None}` instead of the area-cropped cloud", fi=fm)
-        st = [e for e in bp.effects if e.kind == "store" and S(strip_v(e.recv)) == f"cropped_pointcloud[{ivar}]"]
-        ctx.check(len(st) == 1 and strip_v(S(st[0].value)) == run, "C12-fold", "SensingEvaluationManager.crop_pointcloud", "store", "the folded cloud is not stored back at its index", fi=fm)
-    ctx.check(p.retval is not None and strip_v(S(p.retval)) == "cropped_pointcloud", "C12-fold", "SensingEvaluationManager.crop_pointcloud", "returns", "does not return the cropped clouds", fi=fm)
+        if in_place:
+            st = [e for e in bp.effects if e.kind == "store" and S(strip_v(e.recv)) == f"{L1}[{ivar}]"]
+            ctx.check(len(st) == 1 and strip_v(S(st[0].value)) == run, "C12-fold", "SensingEvaluationManager.crop_pointcloud", "store", "the folded cloud is not stored back at its index", fi=fm)
+        else:
+            # the folded clouds are collected, one per area and in order, in a second list
+            ap2 = [a for a in appends(bp) if a.recv != L1]
+            ok2 = len(ap2) == 1 and strip_v(S(ap2[0].args[0])) == run and not bp.conds and bp.exit == ("fall",)
+            L2 = ap2[0].recv if ok2 else L2
+            init2 = [S(e.value) for e in p.effects[: p.effects.index(o)] if e.kind == "assign" and e.recv == L2]
+            ctx.check(ok2 and init2[-1:] in (["[]"], ["list()"]), "C12-fold", "SensingEvaluationManager.crop_pointcloud", "store", "the folded cloud is not kept once per area, unconditionally, in a fresh list", fi=fm)
+    ctx.check(p.retval is not None and strip_v(S(p.retval)) == L2, "C12-fold", "SensingEvaluationManager.crop_pointcloud", "returns", "does not return the cropped clouds", fi=fm)
 
 
 def rule_scale(ctx: Ctx) -> None:
